@@ -452,4 +452,467 @@ theorem checkTx_decide (p : ChainParams) (t : Tx) (h : TxRange t) :
         exact hnull h7
       rw [if_neg hnull, if_neg this]
 
+/-! ### C. get_witness_commitment_index -/
+
+def spk (o : TxOut) : Bytes := o.scriptPubKey
+
+def fetch (l : List TxOut) (o : Option Nat) : Option Bytes := o.bind (fun i => l[i]?.map spk)
+
+theorem commitLoop_bound : ∀ (outs : List TxOut) (idx : Nat) (pos : Option Nat) (i : Nat),
+    (∀ j, pos = some j → j < idx) → commitLoop outs idx pos = some i → i < idx + outs.length := by
+  intro outs
+  induction outs with
+  | nil => intro idx pos i hp h; simp only [commitLoop] at h; have := hp i h; simp; omega
+  | cons o rest ih =>
+    intro idx pos i hp h
+    unfold commitLoop at h
+    split at h
+    · have := ih (idx + 1) (some idx) i (by intro j hj; cases hj; omega) h
+      simp; omega
+    · have := ih (idx + 1) pos i (by intro j hj; have := hp j hj; omega) h
+      simp; omega
+
+theorem commitLoop_fetch : ∀ (outs pre : List TxOut) (pos : Option Nat),
+    fetch (pre ++ outs) (commitLoop outs pre.length pos) =
+      (((outs.map spk).filter Spec.BlockCheck.isCommitScript).getLast?).or (fetch (pre ++ outs) pos) := by
+  intro outs
+  induction outs with
+  | nil => intro pre pos; simp [commitLoop]
+  | cons o rest ih =>
+    intro pre pos
+    unfold commitLoop
+    have hl : (pre ++ [o]).length = pre.length + 1 := by simp
+    have happ : pre ++ o :: rest = (pre ++ [o]) ++ rest := by simp
+    by_cases hc : Spec.BlockCheck.isCommitScript o.scriptPubKey = true
+    · have hc' : (decide (o.scriptPubKey.length ≥ 38) && (o.scriptPubKey.take 6 == witnessCommitMagic)) = true := by
+        simpa [Spec.BlockCheck.isCommitScript] using hc
+      simp only [hc', if_true]
+      rw [happ, ← hl, ih (pre ++ [o]) (some pre.length)]
+      have hf : fetch (pre ++ [o] ++ rest) (some pre.length) = some (spk o) := by
+        simp [fetch, spk]
+      rw [hf]
+      simp only [List.map_cons, List.filter_cons, spk, hc, if_true, List.getLast?_cons]
+      cases (List.filter Spec.BlockCheck.isCommitScript (List.map spk rest)).getLast? <;> simp [spk]
+    · have hc' : (decide (o.scriptPubKey.length ≥ 38) && (o.scriptPubKey.take 6 == witnessCommitMagic)) = false := by
+        simpa [Spec.BlockCheck.isCommitScript] using hc
+      simp only [hc', Bool.false_eq_true, if_false]
+      rw [happ, ← hl, ih (pre ++ [o]) pos]
+      simp [List.filter_cons, spk, hc]
+
+/-- the index found is that of the last output whose script has the commitment form -/
+theorem commitLoop_result (cb : Tx) :
+    match commitLoop cb.vout 0 none with
+    | none => Spec.BlockCheck.commitScript? cb = none
+    | some i => ∃ o, cb.vout[i]? = some o ∧ Spec.BlockCheck.commitScript? cb = some o.scriptPubKey ∧
+        38 ≤ o.scriptPubKey.length := by
+  have hf := commitLoop_fetch cb.vout [] none
+  simp only [List.nil_append, List.length_nil, fetch, Option.bind_none, Option.or_none] at hf
+  cases h : commitLoop cb.vout 0 none with
+  | none =>
+    rw [h] at hf
+    simp only [Option.bind_none] at hf
+    simp only
+    unfold Spec.BlockCheck.commitScript?
+    exact hf.symm
+  | some i =>
+    rw [h] at hf
+    simp only
+    have hb := commitLoop_bound cb.vout 0 none i (by intro j hj; cases hj) h
+    have hlt : i < cb.vout.length := by omega
+    refine ⟨cb.vout[i], by simp [hlt], ?_, ?_⟩
+    · unfold Spec.BlockCheck.commitScript?
+      show ((cb.vout.map spk).filter Spec.BlockCheck.isCommitScript).getLast? = _
+      rw [← hf]
+      simp [hlt, spk]
+    · have hmem : (cb.vout[i]).scriptPubKey ∈ (cb.vout.map spk).filter Spec.BlockCheck.isCommitScript := by
+        apply List.mem_of_getLast?
+        rw [← hf]; simp [hlt, spk]
+      have := (List.mem_filter.mp hmem).2
+      simp only [Spec.BlockCheck.isCommitScript, Bool.and_eq_true, decide_eq_true_eq] at this
+      exact this.1
+
+/-! ### D. the witness-commitment part of CheckBlock -/
+
+theorem decide_of_cases {r : Res Unit} {P : Prop} [Decidable P] (h1 : P → r = .ok ())
+    (h2 : ¬ P → r = .error .validation) : r = if P then .ok () else .error .validation := by
+  by_cases hp : P
+  · rw [if_pos hp]; exact h1 hp
+  · rw [if_neg hp]; exact h2 hp
+
+theorem commitmentOk_iff (cb : Tx) (rest : List Tx) :
+    Spec.BlockCheck.CommitmentOk (cb :: rest) ↔
+      ∃ nonce tail, cb.wit = [nonce] :: tail ∧ nonce.length = 32 ∧
+        ∃ s r, Spec.BlockCheck.commitScript? cb = some s ∧ Spec.Merkle.witnessRoot (cb :: rest) = some r ∧
+          (s.drop 6).take 32 = hash256 (r ++ nonce) := by
+  unfold Spec.BlockCheck.CommitmentOk
+  simp only
+  split
+  · rename_i nonce tail hw
+    constructor
+    · intro ⟨h32, hm⟩
+      split at hm
+      · rename_i s r hs hr
+        exact ⟨nonce, tail, hw, h32, s, r, hs, hr, hm⟩
+      · exact absurd hm id
+    · rintro ⟨nonce', tail', hw', h32, s, r, hs, hr, hm⟩
+      rw [hw] at hw'
+      simp only [List.cons.injEq, and_true] at hw'
+      obtain ⟨hn, _⟩ := hw'
+      subst hn
+      refine ⟨h32, ?_⟩
+      rw [hs, hr]
+      exact hm
+  · rename_i hno
+    constructor
+    · intro h; exact absurd h id
+    · rintro ⟨nonce, tail, hw, _⟩
+      exact absurd hw (hno nonce tail)
+
+theorem checkCommitment_decide (cb : Tx) (rest : List Tx) (wtree : List Bytes) (root : Bytes)
+    (hl : lastOf wtree = .ok root) (hr : Spec.Merkle.witnessRoot (cb :: rest) = some root) :
+    checkCommitment (cb :: rest) wtree =
+      if Spec.BlockCheck.CommitmentOk (cb :: rest) then .ok () else .error .validation := by
+  apply decide_of_cases
+  · intro hok
+    obtain ⟨nonce, tail, hw, h32, s, r, hs, hr', hm⟩ := (commitmentOk_iff cb rest).mp hok
+    rw [hr] at hr'
+    have : r = root := (Option.some.inj hr').symm
+    subst this
+    have hres := commitLoop_result cb
+    unfold checkCommitment
+    simp only [hl, List.getElem?_cons_zero, hw, List.length_singleton, ne_eq, not_true_eq_false, if_false,
+      h32]
+    unfold witnessCommitmentIndex
+    simp only [List.length_cons, Nat.add_one_ne_zero, if_false, List.getElem?_cons_zero]
+    cases hci : commitLoop cb.vout 0 none with
+    | none =>
+      rw [hci] at hres
+      simp only at hres
+      rw [hres] at hs
+      cases hs
+    | some i =>
+      rw [hci] at hres
+      simp only at hres
+      obtain ⟨o, ho, hs', h38⟩ := hres
+      rw [hs'] at hs
+      have : o.scriptPubKey = s := Option.some.inj hs
+      subst this
+      have h38' : 6 + 32 ≤ o.scriptPubKey.length := by omega
+      simp [ho, h38', hm]
+  · intro hno
+    have hno' := fun h => hno ((commitmentOk_iff cb rest).mpr h)
+    have hres := commitLoop_result cb
+    unfold checkCommitment
+    simp only [hl, List.getElem?_cons_zero]
+    match hw : cb.wit with
+    | [] => simp [reject]
+    | [] :: _ => simp [reject]
+    | (a :: b :: _) :: _ => simp [reject]
+    | [nonce] :: tail =>
+      simp only [List.getElem?_cons_zero, List.length_singleton, ne_eq, not_true_eq_false, if_false]
+      by_cases h32 : nonce.length = 32
+      swap
+      · simp [h32, reject]
+      simp only [h32, not_true_eq_false, if_false]
+      unfold witnessCommitmentIndex
+      simp only [List.length_cons, Nat.add_one_ne_zero, if_false, List.getElem?_cons_zero]
+      cases hci : commitLoop cb.vout 0 none with
+      | none => simp [reject]
+      | some i =>
+        rw [hci] at hres
+        simp only at hres
+        obtain ⟨o, ho, hs, h38⟩ := hres
+        have h38' : 6 + 32 ≤ o.scriptPubKey.length := by omega
+        have hne : (o.scriptPubKey.drop 6).take 32 ≠ hash256 (root ++ nonce) := fun hm =>
+          hno' ⟨nonce, tail, hw, h32, o.scriptPubKey, root, hs, hr, hm⟩
+        simp [ho, h38', hne, reject]
+
+/-! ### E. the per-transaction loop of CheckBlock -/
+
+/-- what the loop, started at position `i` with txid set `seen` and count `sig`, accepts -/
+def LoopOk (p : ChainParams) (txs : List Tx) (i : Nat) (seen : List Bytes) (sig : Nat) : Prop :=
+  (∀ k t, txs[k]? = some t → 0 < i + k → t.isCoinbase = false) ∧
+  (∀ t ∈ txs, Spec.BlockCheck.ValidTx p t) ∧
+  (txs.map Spec.Merkle.txid).Nodup ∧
+  (∀ t ∈ txs, Spec.Merkle.txid t ∉ seen) ∧
+  sig + (txs.map Spec.BlockCheck.txSigOps).sum ≤ maxBlockSigops
+
+theorem txLoop_spec (p : ChainParams) : ∀ (txs : List Tx) (i : Nat) (seen : List Bytes) (sig : Nat),
+    (∀ t ∈ txs, TxRange t) → sig ≤ maxBlockSigops →
+    IsVerdict (txLoop p txs i seen sig) ∧ (txLoop p txs i seen sig = .ok () ↔ LoopOk p txs i seen sig) := by
+  intro txs
+  induction txs with
+  | nil =>
+    intro i seen sig _ hsig
+    refine ⟨Or.inl rfl, ?_⟩
+    simp only [txLoop, true_iff]
+    exact ⟨by intro k t h; simp at h, by simp, by simp, by simp, by simpa using hsig⟩
+  | cons t rest ih =>
+    intro i seen sig hr hsig
+    have hrt := hr t (by simp)
+    have hrr : ∀ t' ∈ rest, TxRange t' := fun t' h' => hr t' (by simp [h'])
+    unfold txLoop
+    by_cases hcb : (decide (i > 0) && t.isCoinbase) = true
+    · simp only [hcb, if_true, reject]
+      refine ⟨Or.inr rfl, ?_⟩
+      constructor
+      · intro h; cases h
+      · intro ⟨h1, _⟩
+        simp only [Bool.and_eq_true, decide_eq_true_eq] at hcb
+        have := h1 0 t (by simp) (by omega)
+        rw [this] at hcb; exact absurd hcb.2 (by simp)
+    · have hcb' : (decide (i > 0) && t.isCoinbase) = false := by simpa using hcb
+      simp only [hcb', Bool.false_eq_true, if_false]
+      rw [checkTx_decide p t hrt]
+      by_cases hvt : Spec.BlockCheck.ValidTx p t
+      swap
+      · rw [if_neg hvt]
+        refine ⟨Or.inr rfl, ?_⟩
+        constructor
+        · intro h; cases h
+        · intro ⟨_, h2, _⟩; exact absurd (h2 t (by simp)) hvt
+      rw [if_pos hvt]
+      simp only [MerkleProofs.getTxid_ok t hrt, legacySigOpCount_eq]
+      by_cases hseen : Spec.Merkle.txid t ∈ seen
+      · simp only [hseen, if_true, reject]
+        refine ⟨Or.inr rfl, ?_⟩
+        constructor
+        · intro h; cases h
+        · intro ⟨_, _, _, h4, _⟩; exact absurd hseen (h4 t (by simp))
+      simp only [hseen, if_false]
+      by_cases hover : sig + Spec.BlockCheck.txSigOps t > maxBlockSigops
+      · simp only [hover, if_true, reject]
+        refine ⟨Or.inr rfl, ?_⟩
+        constructor
+        · intro h; cases h
+        · intro ⟨_, _, _, _, h5⟩
+          simp only [List.map_cons, List.sum_cons] at h5; omega
+      simp only [hover, if_false]
+      obtain ⟨hv, hi⟩ := ih (i + 1) (Spec.Merkle.txid t :: seen) (sig + Spec.BlockCheck.txSigOps t) hrr (by omega)
+      refine ⟨hv, ?_⟩
+      rw [hi]
+      unfold LoopOk
+      simp only [Bool.and_eq_false_iff, decide_eq_false_iff_not] at hcb'
+      constructor
+      · intro ⟨h1, h2, h3, h4, h5⟩
+        refine ⟨?_, ?_, ?_, ?_, ?_⟩
+        · intro k t' hk hpos
+          cases k with
+          | zero =>
+            simp only [List.getElem?_cons_zero, Option.some.injEq] at hk
+            subst hk
+            rcases hcb' with h | h
+            · omega
+            · exact h
+          | succ k' =>
+            simp only [List.getElem?_cons_succ] at hk
+            exact h1 k' t' hk (by omega)
+        · intro t' ht'
+          simp only [List.mem_cons] at ht'
+          rcases ht' with rfl | ht'
+          · exact hvt
+          · exact h2 t' ht'
+        · simp only [List.map_cons, List.nodup_cons]
+          refine ⟨?_, h3⟩
+          intro hmem
+          simp only [List.mem_map] at hmem
+          obtain ⟨t', ht', he⟩ := hmem
+          exact (h4 t' ht') (by simp [he])
+        · intro t' ht'
+          simp only [List.mem_cons] at ht'
+          rcases ht' with rfl | ht'
+          · exact hseen
+          · intro hm; exact (h4 t' ht') (by simp [hm])
+        · simp only [List.map_cons, List.sum_cons]; omega
+      · intro ⟨h1, h2, h3, h4, h5⟩
+        simp only [List.map_cons, List.nodup_cons, List.sum_cons] at h3 h5
+        refine ⟨?_, ?_, h3.2, ?_, by omega⟩
+        · intro k t' hk _
+          exact h1 (k + 1) t' (by simpa using hk) (by omega)
+        · intro t' ht'; exact h2 t' (by simp [ht'])
+        · intro t' ht' hm
+          simp only [List.mem_cons] at hm
+          rcases hm with hm | hm
+          · exact h3.1 (List.mem_map.mpr ⟨t', ht', hm⟩)
+          · exact (h4 t' (by simp [ht'])) hm
+
+/-! ### F. CheckBlockHeader -/
+
+theorem checkBlockHeader_decide (p : ChainParams) (hlim : p.powLimit < 2 ^ 256)
+    (hH : ∀ x : Bytes, (hash256 x).length = 32) (h : Header) (hh : Spec.Wire.WFHeader h)
+    (fPoW : Bool) (now : Int) :
+    checkBlockHeader p h fPoW now =
+      if Spec.BlockCheck.ValidHeader p now fPoW h then .ok () else .error .validation := by
+  have hbits : h.nBits < 2 ^ 32 := hh.2.2.2.2.2.1
+  have hpow := C17.pow_iff p.powLimit hlim (hash256 (Spec.Wire.header h)) (hH _) h.nBits hbits
+  have e : now + 2 * 60 * 60 = now + 7200 := by omega
+  unfold checkBlockHeader
+  rw [e]
+  apply decide_of_cases
+  · intro ⟨h1, h2⟩
+    have ht : ¬ ((h.nTime : Int) > now + 7200) := by omega
+    cases fPoW with
+    | false => simp only [Bool.false_eq_true, if_false, ht]
+    | true =>
+      have hp := hpow.mpr (h1 rfl)
+      simp only [if_true, serHeader_ok h hh, checkPoW, hp, ht, if_false]
+  · intro hno
+    cases fPoW with
+    | false =>
+      have ht : (h.nTime : Int) > now + 7200 := by
+        by_cases hc : (h.nTime : Int) > now + 7200
+        · exact hc
+        · exact absurd ⟨(fun hf => by cases hf), (by omega)⟩ hno
+      simp only [Bool.false_eq_true, if_false, ht, if_true, reject]
+    | true =>
+      simp only [if_true, serHeader_ok h hh, checkPoW]
+      cases hc : Model.checkPoW p.powLimit (hash256 (Spec.Wire.header h)) h.nBits with
+      | errPow => simp only [reject]
+      | ok =>
+        have hv := hpow.mp hc
+        have ht : (h.nTime : Int) > now + 7200 := by
+          by_cases hc' : (h.nTime : Int) > now + 7200
+          · exact hc'
+          · exact absurd ⟨fun _ => hv, by omega⟩ hno
+        simp only [ht, if_true, reject]
+
+/-! ### G. CheckBlock -/
+
+theorem lastOf_ok_ne_nil {tree : List Bytes} {r : Bytes} (h : lastOf tree = .ok r) : tree.length ≠ 0 := by
+  cases tree with
+  | nil => simp [lastOf] at h
+  | cons _ _ => simp
+
+theorem checkBlock_decide (p : ChainParams) (hlim : p.powLimit < 2 ^ 256)
+    (hH : ∀ x : Bytes, (hash256 x).length = 32) (b : Block) (hb : BlockRange b)
+    (fPoW fMerkle : Bool) (now : Int) :
+    checkBlock p b fPoW fMerkle now =
+      if Spec.BlockCheck.ValidBlock p now fPoW fMerkle b then .ok () else .error .validation := by
+  have hwfh := hb.1
+  have hrt := hb.2.2
+  unfold checkBlock checkBlockWith
+  have hgh : getHeader b.hdr = .ok b.hdr := by simp [getHeader, hwfh.2.2.1, hwfh.2.2.2.1]
+  rw [hgh]; dsimp only
+  rw [checkBlockHeader_decide p hlim hH b.hdr hwfh fPoW now]
+  by_cases hhdr : Spec.BlockCheck.ValidHeader p now fPoW b.hdr
+  swap
+  · have : ¬ Spec.BlockCheck.ValidBlock p now fPoW fMerkle b := fun hv => hhdr ⟨hv.1, hv.2.1⟩
+    rw [if_neg hhdr, if_neg this]
+  rw [if_pos hhdr]; dsimp only
+  by_cases hlen : b.vtx.length = 0
+  · have : ¬ Spec.BlockCheck.ValidBlock p now fPoW fMerkle b :=
+      fun hv => hv.2.2.1 (List.eq_nil_of_length_eq_zero hlen)
+    rw [if_pos hlen, if_neg this]; rfl
+  rw [if_neg hlen, serBlock_false b hb]; dsimp only
+  have hne : b.vtx ≠ [] := fun h => hlen (by simp [h])
+  by_cases hsz : (Spec.Wire.header b.hdr ++ Spec.Wire.vec Spec.Wire.txLegacy b.vtx).length > maxBlockSize
+  · have : ¬ Spec.BlockCheck.ValidBlock p now fPoW fMerkle b := fun hv => by
+      have := hv.2.2.2.1; unfold Spec.Merkle.blockStripped at this; omega
+    rw [if_pos hsz, if_neg this]; rfl
+  rw [if_neg hsz, MerkleProofs.getWeight_ok b hb]; dsimp only
+  by_cases hwt : Spec.Merkle.blockWeight b > maxBlockWeight
+  · have : ¬ Spec.BlockCheck.ValidBlock p now fPoW fMerkle b := fun hv => by
+      have := hv.2.2.2.2.1; omega
+    rw [if_pos hwt, if_neg this]; rfl
+  rw [if_neg hwt]
+  obtain ⟨cb, rest, hvtx⟩ : ∃ cb rest, b.vtx = cb :: rest := by
+    cases hq : b.vtx with
+    | nil => exact absurd hq hne
+    | cons cb rest => exact ⟨cb, rest, rfl⟩
+  simp only [hvtx, List.getElem?_cons_zero]
+  by_cases hcb : cb.isCoinbase = true
+  swap
+  · have : ¬ Spec.BlockCheck.ValidBlock p now fPoW fMerkle b := fun hv => by
+      have := hv.2.2.2.2.2.1; rw [hvtx] at this; exact hcb this.1
+    have hcb' : cb.isCoinbase = false := by simpa using hcb
+    simp only [hcb', Bool.not_false, if_true]
+    rw [if_neg this]; rfl
+  simp only [hcb, Bool.not_true, Bool.false_eq_true, if_false]
+  have hrt' : ∀ t ∈ cb :: rest, TxRange t := by rw [← hvtx]; exact hrt
+  obtain ⟨hlv, hli⟩ := txLoop_spec p (cb :: rest) 0 [] 0 hrt' (by simp)
+  by_cases hloop : LoopOk p (cb :: rest) 0 [] 0
+  swap
+  · have hrej : txLoop p (cb :: rest) 0 [] 0 = .error .validation := by
+      rcases hlv with h | h
+      · exact absurd (hli.mp h) hloop
+      · exact h
+    have : ¬ Spec.BlockCheck.ValidBlock p now fPoW fMerkle b := fun hv => by
+      apply hloop
+      obtain ⟨_, _, _, _, _, h6, h7, h8, h9, _⟩ := hv
+      rw [hvtx] at h6 h7 h8 h9
+      refine ⟨?_, h7, h8, by simp, by simpa using h9⟩
+      intro k t hk hpos
+      cases k with
+      | zero => omega
+      | succ k' =>
+        simp only [List.getElem?_cons_succ] at hk
+        exact h6.2 t (List.mem_of_getElem? hk)
+    rw [hrej, if_neg this]
+  rw [hli.mpr hloop]; dsimp only
+  obtain ⟨hl1, hl2, hl3, _, hl5⟩ := hloop
+  have hcbf : Spec.BlockCheck.CoinbaseFirstOnly b.vtx := by
+    rw [hvtx]
+    refine ⟨hcb, ?_⟩
+    intro t ht
+    obtain ⟨k, hk⟩ := List.getElem?_of_mem ht
+    exact hl1 (k + 1) t (by simpa using hk) (by omega)
+  have hbase : (fPoW = true → Spec.powValid p.powLimit (hash256 (Spec.Wire.header b.hdr)) b.hdr.nBits) ∧
+      (b.hdr.nTime : Int) ≤ now + 7200 ∧ b.vtx ≠ [] ∧
+      (Spec.Merkle.blockStripped b).length ≤ maxBlockSize ∧ Spec.Merkle.blockWeight b ≤ maxBlockWeight ∧
+      Spec.BlockCheck.CoinbaseFirstOnly b.vtx ∧ (∀ t ∈ b.vtx, Spec.BlockCheck.ValidTx p t) ∧
+      (b.vtx.map Spec.Merkle.txid).Nodup ∧ (b.vtx.map Spec.BlockCheck.txSigOps).sum ≤ maxBlockSigops := by
+    refine ⟨hhdr.1, hhdr.2, hne, by unfold Spec.Merkle.blockStripped; omega, by omega, hcbf, ?_, ?_, ?_⟩
+    · rw [hvtx]; exact hl2
+    · rw [hvtx]; exact hl3
+    · rw [hvtx]; simpa using hl5
+  obtain ⟨b1, b2, b3, b4, b5, b6, b7, b8, b9⟩ := hbase
+  cases fMerkle with
+  | false =>
+    have : Spec.BlockCheck.ValidBlock p now fPoW false b :=
+      ⟨b1, b2, b3, b4, b5, b6, b7, b8, b9, fun h => by cases h⟩
+    simp only [Bool.false_eq_true, if_false]
+    rw [if_pos this]
+  | true =>
+    simp only [if_true]
+    have hrt'' : ∀ t ∈ cb :: rest, TxRange t := hrt'
+    obtain ⟨_, r, _, _, hcm, hsm⟩ := MerkleProofs.calcMerkleRoot_spec (cb :: rest) (by simp) hrt''
+    rw [hcm]; dsimp only
+    by_cases hroot : b.hdr.hashMerkleRoot ≠ r
+    · have : ¬ Spec.BlockCheck.ValidBlock p now fPoW true b := fun hv => by
+        have := (hv.2.2.2.2.2.2.2.2.2 rfl).1
+        rw [hvtx, hsm] at this
+        exact hroot (Option.some.inj this).symm
+      rw [if_pos hroot, if_neg this]; rfl
+    rw [if_neg hroot]
+    have hroot' : Spec.Merkle.merkleRoot b.vtx = some b.hdr.hashMerkleRoot := by
+      rw [hvtx, hsm]; simp only [ne_eq, not_not] at hroot; rw [hroot]
+    obtain ⟨hnone, hsome⟩ := MerkleProofs.buildWitnessTree_spec (cb :: rest) hrt''
+    cases hany : (cb :: rest).any (·.hasWitness) with
+    | false =>
+      rw [hnone hany]
+      have : Spec.BlockCheck.ValidBlock p now fPoW true b := by
+        refine ⟨b1, b2, b3, b4, b5, b6, b7, b8, b9, fun _ => ⟨hroot', ?_⟩⟩
+        rintro ⟨t, ht, hw⟩
+        rw [hvtx] at ht
+        have := List.any_eq_false.mp hany t ht
+        simp [hw] at this
+      simp only [Option.getD_none, List.length_nil, ne_eq, not_true_eq_false, if_false]
+      rw [if_pos this]
+    | true =>
+      obtain ⟨tree, wr, hbt, hlast, hwr⟩ := hsome hany
+      rw [hbt]
+      simp only [Option.getD_some, ne_eq, lastOf_ok_ne_nil hlast, not_false_eq_true, if_true]
+      rw [checkCommitment_decide cb rest tree wr hlast hwr]
+      have hex : ∃ t ∈ b.vtx, t.hasWitness = true := by
+        rw [hvtx]; exact List.any_eq_true.mp hany
+      by_cases hcm' : Spec.BlockCheck.CommitmentOk (cb :: rest)
+      · have : Spec.BlockCheck.ValidBlock p now fPoW true b :=
+          ⟨b1, b2, b3, b4, b5, b6, b7, b8, b9, fun _ => ⟨hroot', fun _ => by rw [hvtx]; exact hcm'⟩⟩
+        rw [if_pos hcm', if_pos this]
+      · have : ¬ Spec.BlockCheck.ValidBlock p now fPoW true b := fun hv => by
+          have := (hv.2.2.2.2.2.2.2.2.2 rfl).2 hex
+          rw [hvtx] at this
+          exact hcm' this
+        rw [if_neg hcm', if_neg this]
+
 end BtcVerif.BlockCheckProofs
